@@ -32,7 +32,15 @@ TRUSTED = ["CPython list slicing / slice assignment / defaultdict / issubclass (
            "IEEE-754 double division and comparison (terminalRatio, termpb) are the same operation in Lean's Float"]
 ASSUMPTIONS = ["primitive sets: every primitive has arity >= 1, every terminal arity 0; where a requested type has no "
                "terminal / no primitive, generate raises its documented IndexError and produces no tree (model: none)",
-               "ephemeral generators draw their value with random.randint (so the value is on the tape)"]
+               "ephemeral generators draw their value with random.randint (so the value is on the tape)",
+               "the two parents of a crossover are distinct objects (algorithms.varAnd clones them; cxOnePoint(t, t) "
+               "assigns two slices of the same list and can leave an incomplete expression — outside the statement's "
+               "'every pair of such trees')",
+               "non-tree parameters of an operator wrapped by staticLimit are passed by keyword, as toolbox.register does "
+               "(staticLimit deep-copies EVERY positional argument into the pool of fall-back parents: candidate finding "
+               "'staticLimit-positional-args')"]
+MIN_CASES = 2000
+CASE_TIMEOUT = 10
 EXPLANATION = ("Closure theorems for every `.ok` result, and totality theorems (gen_total, cx_total, cxlb_total, mut*_total): on "
                "well-formed inputs the model never ends in the fault `raised` (Python exception) or `fuel`, and returns on every "
                "well-typed tape longer than an explicit bound. "
@@ -53,6 +61,11 @@ class MyTape(_tape.Tape):
         self.elems = {}
 
     def _choice(self, seq):
+        # `random.choice(list(common_types))`: the order of a set of classes depends on their addresses, so a
+        # stored replay would pick another type in another process.  Index a canonically ordered copy instead
+        # (any element is a legitimate result of random.choice); the chosen TYPE travels on the tape.
+        if len(seq) and all(isinstance(e, type) and type(e) is not gp.MetaEphemeral for e in seq):
+            seq = sorted(seq, key=lambda c: (c.__module__, c.__qualname__))
         x = _tape.Tape._choice(self, seq)
         self.elems[len(self.draws) - 1] = x
         return x
@@ -301,6 +314,26 @@ def build_typedobj():
     return ps
 
 
+def build_typedN():
+    # the type bool has primitives (ltF, notB) but NO terminal: generate raises its documented IndexError whenever a
+    # bool slot reaches the leaf depth, mutInsert / mutUniform raise when they need a bool terminal
+    ps = PS("typedN", True, [float], float, [float, bool])
+    p = ps.pset
+    p.addPrimitive(f_add, [float, float], float, name="addF")
+    p.addPrimitive(f_lt, [float, float], bool, name="ltF")
+    p.addPrimitive(f_not, [bool], bool, name="notB")
+    p.addPrimitive(f_ite, [bool, float, float], float, name="iteF")
+    p.addPrimitive(f_and, [bool, float], float, name="gate")
+    p.addTerminal(0.5, float)
+    p.addTerminal(2.0, float)
+    return ps
+
+
+# sets in which some type lacks a terminal or a primitive: the documented IndexError (no tree / no offspring) is the
+# expected behaviour there and nowhere else
+PARTIAL = ("typedT", "typedN", "typedobj")     # typedobj: float has a terminal but no primitive
+
+
 def build_typedT():
     # the type bool is provided by terminals only (constants feeding an if-then-else); float has both
     ps = PS("typedT", True, [float], float, [float, bool])
@@ -367,7 +400,7 @@ def build_perm(k):
 BUILDERS = {"loose1": build_loose1, "loose0": build_loose0, "loose2": build_loose2, "unary": build_loose_unary,
             "typed1": build_typed1, "typed1f": lambda: build_typed1(float), "typed1b": lambda: build_typed1(bool),
             "typed2": build_typed2, "typed3": build_typed3, "typedobj": build_typedobj, "typedT": build_typedT,
-            "typedS": build_typedS}
+            "typedS": build_typedS, "typedN": build_typedN}
 for _k in range(6):
     BUILDERS["perm%d" % _k] = (lambda k: (lambda: build_perm(k)))(_k)
 PSNAMES = sorted(BUILDERS)
@@ -496,9 +529,12 @@ def make_tree(ps, g, retry=0):
     for j in range(retry + 1):
         with MyTape(rng=random.Random(g["seed"] + j)) as tp:
             try:
-                expr = GEN[g["mode"]](ps.pset, g["mn"], g["mx"], ps.types[g["ty"]])
+                if g.get("noty") and g["ty"] == ps.tid(ps.pset.ret):        # the default `type_=None` (= pset.ret)
+                    expr = GEN[g["mode"]](ps.pset, g["mn"], g["mx"])
+                else:
+                    expr = GEN[g["mode"]](ps.pset, g["mn"], g["mx"], ps.types[g["ty"]])
             except IndexError as e:
-                if not documented(e):
+                if not (documented(e) and ps.name in PARTIAL):
                     raise
                 expr = None
         if expr is not None:
@@ -524,10 +560,9 @@ def gen_oracle(ps, g, tree, tp):
     mn, mx = g["mn"], g["mx"]
     if not (mn <= h <= mx):
         return "generated height %d not in [%d,%d]" % (h, mn, mx)
-    mode = g["mode"]
-    if mode == "half":
-        mode = "grow" if tp.draws[0][2] == 0 else "full"
-    if mode == "full" and len(set(ld)) != 1:
+    # half-and-half promises what grow promises (a full tree satisfies it too); which of the two generators ran is
+    # compared with the model, not demanded here
+    if g["mode"] == "full" and len(set(ld)) != 1:
         return "full: leaves at different depths %s" % sorted(set(ld))
     if min(ld) < mn:
         return "a leaf at depth %d is shallower than the minimum %d" % (min(ld), mn)
@@ -602,17 +637,8 @@ def evaluate(d):
         p = ps.pset
         exp = ";".join("%d=%s/%s" % (i, ",".join(x.name for x in p.primitives.get(ps.types[i], [])),
                                      ",".join(x.name for x in p.terminals.get(ps.types[i], []))) for i in tys)
-        orc = None
-        for dct in (p.primitives, p.terminals):
-            for ty, l in dct.items():
-                for x in l:
-                    if not issubclass(x.ret, ty):
-                        orc = "pool of %s holds %s returning %s" % (ty.__name__, x.name, x.ret.__name__)
-                for x in ps.order:
-                    isprim = isinstance(x, gp.Primitive)
-                    if (dct is p.primitives) == isprim and issubclass(x.ret, ty) and x not in l:
-                        orc = "pool of %s lacks the compatible %s" % (ty.__name__, x.name)
-        return Case(d, [line], [exp], orc, tag="add/" + d["ps"])
+        # the statement does not speak about the pools: their content is compared with the model of `_add` only
+        return Case(d, [line], [exp], None, tag="add/" + d["ps"])
 
     if k == "guard":
         tree, _ = make_tree(ps, d["t"], retry=200)
@@ -670,6 +696,21 @@ def evaluate(d):
         expect.append(comp + ("1" if msg is None else "0"))
         return Case(d, lines, expect, None, tag="guard/" + d["ps"])
 
+    if k == "slimpos":
+        # candidate finding: non-tree arguments passed positionally land in the pool of fall-back parents
+        tree, _ = make_tree(ps, d["t"], retry=200)
+        maxv = len(tree)
+        dec = gp.staticLimit(key=len, max_value=maxv)(gp.mutInsert)
+        with MyTape(rng=random.Random(d["seed"])) as tp:
+            out = dec(tree, ps.pset)
+        orc = None
+        for o in out:
+            if not isinstance(o, gp.PrimitiveTree):
+                orc = "staticLimit with positional pset returned a %s instead of a tree" % type(o).__name__
+            elif len(o) > maxv:
+                orc = "staticLimit with positional pset returned a tree of %d nodes, limit %d" % (len(o), maxv)
+        return Case(d, [], [], orc, tag="slimpos", nontrivial=True)
+
     # ---- operators ---------------------------------------------------------------------------
     trees, lines, expect = [], [], []
     for g in d["t"]:
@@ -719,13 +760,14 @@ def evaluate(d):
     with MyTape(rng=random.Random(d["seed"])) as tp:
         try:
             out = list(call(fn))
-        except IndexError as e:
-            if not (k == "mutu" and documented(e)):
+        except IndexError:
+            # only where a type lacks a terminal / primitive (generate's documented IndexError inside mutUniform,
+            # random.choice([]) of the terminal pool inside mutInsert): no offspring; the model stops at the same draw
+            if ps.name not in PARTIAL or k not in ("mutu", "muti"):
                 raise
             out = None
     if out is None:
-        # the replacement generator raised its documented IndexError inside mutUniform: no offspring
-        return Case(d, ["C11 %s %s" % (optoks, tape_tok(ps, tp))], ["none"], None, tag="mutu/%s/raises" % d["ps"],
+        return Case(d, ["C11 %s %s" % (optoks, tape_tok(ps, tp))], ["none"], None, tag="%s/%s/raises" % (k, d["ps"]),
                     nontrivial=False)
     lines.append("C11 %s %s" % (optoks, tape_tok(ps, tp)))
     expect.append("%s 0" % " ".join(ps.nodes_tok(o) for o in out))
@@ -775,7 +817,10 @@ def rand_tree_desc(rng, ps, small=False):
     if mode != "grow" and mx > 4 and ps.name not in ("unary",):
         mx = 4
         mn = min(mn, mx)
-    return {"mode": mode, "mn": mn, "mx": mx, "ty": rng.choice(ps.requestable()), "seed": rng.randrange(1 << 30)}
+    g = {"mode": mode, "mn": mn, "mx": mx, "ty": rng.choice(ps.requestable()), "seed": rng.randrange(1 << 30)}
+    if g["ty"] == ps.tid(ps.pset.ret) and rng.random() < 0.5:
+        g["noty"] = True
+    return g
 
 
 def same_type_desc(rng, ps, g):
@@ -827,10 +872,16 @@ def generate(tier, rng, mult):
                         for _ in range(nseeds):
                             d = {"k": "gen", "ps": name, "mode": mode, "mn": mn, "mx": mx, "ty": ty,
                                  "seed": rng.randrange(1 << 30)}
+                            if ty == ps.tid(ps.pset.ret) and (mn + mx) % 2 == 0:
+                                d["noty"] = True      # call the generator without `type_` (default: pset.ret)
                             # large full trees: compare the generator only (no per-index observers)
                             if mode != "grow" and mx >= 5:
                                 d["observe"] = False
                             yield d
+    if posargs_known():
+        for _ in range(100):
+            ps = get_ps("loose1")
+            yield {"k": "slimpos", "ps": "loose1", "t": rand_tree_desc(rng, ps), "seed": rng.randrange(1 << 30)}
     # staticLimit on the height with a tight limit: both parents exactly at the limit
     for _ in range((20000 if thorough else 2000) * mult):
         ps = get_ps(rng.choice(PSNAMES))
@@ -899,5 +950,20 @@ def shrink(d):
             yield e
 
 
+POSARGS_KEY = "staticLimit-positional-args"
+
+
+def posargs_known(known=None):
+    if known is None:
+        import lib
+        known = lib.load_known("C11")
+    for k in known:
+        if POSARGS_KEY in (k.get("key", "") + " " + k.get("what", "")):
+            return k.get("id")
+    return None
+
+
 def classify(desc, msg, known):
+    if isinstance(desc, dict) and desc.get("k") == "slimpos" and msg.startswith("staticLimit with positional"):
+        return posargs_known(known)
     return None
